@@ -485,7 +485,8 @@ impl Prop for Statics {
     }
 
     fn enumerated(&self, tier: Tier) -> (Vec<StaticCase>, String) {
-        let max = tier.pick(3, 4);
+        // SE problems are cheap enough to cover all 65536 digraphs on 4 arguments in the quick tier too
+        let max = if self.which == Which::C01 { 4 } else { tier.pick(3, 4) };
         let mut v = vec![];
         for n in 0..=max {
             for g in gen::all_graphs(n) {
